@@ -1971,6 +1971,11 @@ class rx:
 
     def _eval_operation(self, obj, operation):
         fn, args, kwargs = operation['fn'], operation['args'], operation['kwargs']
+        is_method = isinstance(fn, str)
+        if is_method:
+            # (as in `obj.method(args)`: the method is looked up before
+            # the arguments are evaluated)
+            fn = getattr(obj, fn)
         resolved_args = []
         for arg in args:
             val = resolve_value(arg)
@@ -1983,8 +1988,8 @@ class rx:
             if val is Skip or val is Undefined:
                 raise Skip
             resolved_kwargs[k] = val
-        if isinstance(fn, str):
-            obj = getattr(obj, fn)(*resolved_args, **resolved_kwargs)
+        if is_method:
+            obj = fn(*resolved_args, **resolved_kwargs)
         elif operation.get('reverse'):
             obj = fn(resolved_args[0], obj, *resolved_args[1:], **resolved_kwargs)
         else:
